@@ -62,6 +62,9 @@ def cases(tier, seed):
     if quick:
         for u in ("nm", "mm"):
             out.append(dict(fam="run", dev="G1", drive="both", screening=True, units=u))
+    # thermalisation first (the recorded stage restarts step counter and clock on the same solver)
+    for d, drive, u in itertools.product(devs[:1] if quick else devs, ("ramp_fast", "callable_current"), ("nm", "mm")):
+        out.append(dict(fam="run", dev=d, drive=drive, screening=False, units=u, thermal=True))
     meshes = ["G1", "G2", "G5", "G7"] if quick else ["G1", "G2", "G3", "G4", "G5", "G6", "G7", "G1f", "G5f"]
     for m, lu, fu in itertools.product(meshes, LU, FU):
         out.append(dict(fam="flux", mesh=m, lu=lu, fu=fu))
@@ -125,7 +128,7 @@ def run_run(case):
         dev, kw, (lu, fu, cu) = _problem(case["dev"], case["drive"], units, case["screening"])
         opts = tdgl.SolverOptions(solve_time=nsteps * dt, dt_init=dt, dt_max=dt, adaptive=False, save_every=1, output_file=f"{tag}.h5",
                                   field_units=fu, current_units=cu, include_screening=case["screening"], screening_tolerance=1e-7,
-                                  max_iterations_per_step=5000, progress_interval=10**9)
+                                  max_iterations_per_step=5000, progress_interval=10**9, skip_time=(3 * dt if case.get("thermal") else 0.0))
         refused[tag] = None
         try:
             sol = tdgl.solve(dev, opts, **kw)
